@@ -568,6 +568,11 @@ func (a *Assembler) AssembleWithTimestamp(netFlow gopacket.Flow, t *layers.TCP, 
 		conn.lastSeen = timestamp
 	}
 	seq, bytes := Sequence(t.Seq), t.Payload
+	if t.SYN && conn.nextSeq != invalidSequence {
+		// The SYN flag occupies one sequence number: the payload of a SYN that
+		// is not the first thing we process for this stream starts at seq+1.
+		seq = seq.Add(1)
+	}
 	if conn.nextSeq == invalidSequence {
 		if t.SYN {
 			if *debugLog {
